@@ -359,6 +359,18 @@ fn bases(thorough: bool) -> Vec<Base> {
 		}
 		out.push(build_base_pm("hash/sync_data=false/20-commits-16-logs-kept", lazy, h, None, false));
 	}
+	{
+		// counting column + multitree column; the second and third record hold reference-count changes (a tree that
+		// names a node of another tree): none enacted, and one with the first two enacted
+		let (cfg, alpha, _) = crate::props::c02::rc_tree_family();
+		let h: Vec<Ev> = [&alpha[0], &alpha[1], &alpha[3]].into_iter().flat_map(|t| vec![c(t.clone()), p.clone(), f.clone()]).collect();
+		out.push(build_base("rc+tree/3-files-none-enacted", cfg.clone(), h.clone(), None));
+		// the same with every record already in the tables and the log files not yet cleaned: replay goes over records
+		// the tables are ahead of
+		let mut h2 = h.clone();
+		h2.extend([e.clone(), e.clone(), e.clone(), e.clone(), e.clone(), e.clone()]);
+		out.push(build_base("rc+tree/3-files-all-enacted-not-cleaned", cfg.clone(), h2, None));
+	}
 	if thorough {
 		let bt = Config::new(vec![ColSpec::btree()]);
 		out.push(build_base("btree/3-files-1-enacted", bt, vec![c(t1), p.clone(), f.clone(), c(t2), p.clone(), f.clone(), e.clone(), c(t3), p.clone(), f.clone()], None));
